@@ -25,7 +25,7 @@ DTYPES = ("float32", "float64", "uint8")
 
 def REQUIRED(tier):
     return ["running_filter", "running:w>n", "running:even_w", "downsample_1d", "downsample_1d:factor==n", "downsample_2d", "downsample_2d_flat", "kernel_2d_flat",
-            "kernel_parallel", "overflow_probe", "detrend", "deredden", "ts_downsample", "block_downsample", "canary_audits", "input_unchanged_checks", "deredden_exact_after_fast"]
+            "kernel_parallel", "overflow_probe", "detrend", "deredden", "ts_downsample", "block_downsample", "canary_audits", "input_unchanged_checks", "deredden_exact_after_fast", "detrend_long_series"]
 
 
 def EXHAUSTIVE(tier):
@@ -40,6 +40,10 @@ def cases(tier, seed):
     for d1 in range(1, 13):
         yield {"kind": "ds2d", "d1": d1, "seed": int(seed)}
     yield {"kind": "detrend", "seed": int(seed)}
+    yield {"kind": "detrend_long", "seed": int(seed), "ns": [10007, 55109, 65536, 300000]}
+    yield {"kind": "detrend_long", "seed": int(seed) + 1, "ns": [1700000, 2500000]}
+    if tier == "thorough":
+        yield {"kind": "detrend_long", "seed": int(seed) + 2, "ns": [1 << 20, 1664511, 1664513, 5000000, 12000000]}
     for i in range(4):
         yield {"kind": "ds_large", "seed": int(seed), "i": i}
     yield {"kind": "compose", "seed": int(seed)}
@@ -325,6 +329,33 @@ def _detrend(case, ctx):
                     ctx.violation(f"detrend-values:{dt}", f"n={n} {cls}: max |residual - lstsq residual| = {np.max(np.abs(got - want)) if got.shape == (n,) else 'shape'}", one)
                 elif n >= 3:
                     ctx.nontrivial_case(one)
+
+
+def _detrend_long(case, ctx):
+    """Series of 10^4 .. 5x10^6 samples (an ordinary dedispersed time series): the closed-form index sums reach m^3 and m^4."""
+    from sigpyproc.core import kernels
+
+    rng = np.random.default_rng([case["seed"], 44])
+    for n in case["ns"]:
+        t = np.arange(n, dtype=np.float64)
+        slope = float(rng.choice([1e-3, -2e-5, 0.0]))
+        y = (slope * t - 3.0 + rng.normal(size=n)).astype(np.float32)
+        ctx.evaluated(); ctx.count("detrend"); ctx.count("detrend_long_series")
+        one = {"kind": "detrend_long", "seed": case["seed"], "ns": [n]}
+        try:
+            got = np.asarray(kernels.detrend_1d(y), dtype=np.float64)
+        except Exception as exc:  # noqa: BLE001
+            ctx.violation(f"detrend-raised:{type(exc).__name__}", fmt_exc(exc), one)
+            continue
+        y64 = y.astype(np.float64)
+        tm, ym = t.mean(), y64.mean()
+        b = float(np.sum((t - tm) * (y64 - ym)) / np.sum((t - tm) ** 2))
+        want = y64 - (b * (t - tm) + ym)
+        tol = 2e-6 * max(1.0, float(np.abs(y64).max())) * max(1.0, n / 1e5)     # float32 trend evaluation: ulp of |trend| grows with the span
+        if got.shape != (n,) or np.max(np.abs(got - want)) > tol:
+            ctx.violation("detrend-values:long-series", f"n={n}: max |residual - least-squares residual| = {np.max(np.abs(got - want)) if got.shape == (n,) else 'shape'} (> {tol:.1e})", one)
+        else:
+            ctx.nontrivial_case(one)
 
 
 def _compose(case, ctx):
